@@ -401,3 +401,104 @@ def run(ctx, R):
         'placement.objects.research_context:provider_ids_from_uuid',
         RPM + ':_get_provider_by_uuid', RPM + ':_has_child_providers'])
     R.count('R9.6', n, 3)
+
+
+def r97(ctx, R):
+    """Shape of get_subtree: self plus, recursively, every provider of the
+    same tree whose parent is in the result."""
+    prog = ctx.prog
+    f = prog.func(RPM + ':ResourceProvider.get_subtree')
+    g = cfgmod.cfg_of(f)
+    mp = f.params[2] if len(f.params) > 2 else None
+    # (1) the tree members come from the in_tree filter on self
+    calls = C.calls_to(ctx, f, RPM + ':get_all_by_filters')
+    ok1 = False
+    tree_var = None
+    if len(calls) == 1:
+        flt = C.kwarg(calls[0], 'filters') or (
+            calls[0].args[1] if len(calls[0].args) > 1 else None)
+        ok1 = isinstance(flt, ast.Dict) and len(flt.keys) == 1 and \
+            isinstance(flt.keys[0], ast.Constant) and \
+            flt.keys[0].value == 'in_tree' and src(flt.values[0]) == \
+            'self.uuid'
+        st = C.stmt_of(calls[0])
+        tree_var = st.targets[0].id if isinstance(st, ast.Assign) else None
+    R.ob('R9.7', 'get_subtree:tree-members', ok1,
+         "candidates = get_all_by_filters(filters={'in_tree': self.uuid})",
+         [src(c)[:70] for c in calls], func=f)
+    # (2) every member with a parent is filed under that parent
+    ok2 = False
+    why = 'no grouping loop'
+    for lp in [x for x in own_nodes(f.node) if isinstance(x, ast.For)]:
+        if tree_var is None or src(lp.iter) != tree_var:
+            continue
+        v = src(lp.target)
+        adds = [c for c in own_nodes_of(lp) if isinstance(c, ast.Call)
+                and isinstance(c.func, ast.Attribute)
+                and c.func.attr in ('add', 'append')
+                and isinstance(c.func.value, ast.Subscript)
+                and src(c.func.value.value) == mp
+                and src(c.func.value.slice) == '%s.parent_provider_uuid' % v
+                and c.args and src(c.args[0]) == v]
+        if len(adds) == 1:
+            ifs = C.guarding_ifs(C.stmt_of(adds[0]), lp)
+            ok2 = len(ifs) == 1 and src(ifs[0][0].test) == \
+                '%s.parent_provider_uuid' % v and ifs[0][1] == 'body' and \
+                not [x for x in own_nodes_of(lp)
+                     if isinstance(x, (ast.Continue, ast.Break))]
+            why = 'filed under %s when %s' % (
+                src(adds[0].func.value.slice),
+                [src(i[0].test) for i in ifs])
+    R.ob('R9.7', 'get_subtree:children-by-parent', ok2,
+         'every provider of the tree that has a parent is filed under its '
+         'parent uuid', why, func=f)
+    # (3) result = [self] + subtree of every child (recursion, same map)
+    rets = [r for r in own_nodes(f.node) if isinstance(r, ast.Return)]
+    ok3 = False
+    why = 'return shape'
+    if len(rets) == 1 and isinstance(rets[0].value, ast.Name):
+        res = rets[0].value.id
+        init = [n for n in own_nodes(f.node) if isinstance(n, ast.Assign)
+                and any(isinstance(t, ast.Name) and t.id == res
+                        for t in n.targets)]
+        loops = [x for x in own_nodes(f.node) if isinstance(x, ast.For)
+                 and src(x.iter) == '%s[self.uuid]' % mp]
+        if len(init) == 1 and src(init[0].value) == '[self]' and \
+                len(loops) == 1:
+            lp = loops[0]
+            v = src(lp.target)
+            ext = [c for c in own_nodes_of(lp) if isinstance(c, ast.Call)
+                   and isinstance(c.func, ast.Attribute)
+                   and c.func.attr == 'extend'
+                   and src(c.func.value) == res]
+            rec = [c for c in own_nodes_of(lp) if isinstance(c, ast.Call)
+                   and isinstance(c.func, ast.Attribute)
+                   and c.func.attr == 'get_subtree'
+                   and src(c.func.value) == v]
+            ok3 = len(ext) == 1 and len(rec) == 1 and rec[0] in list(
+                ast.walk(ext[0])) and len(rec[0].args) >= 2 and src(
+                    rec[0].args[1]) == mp and not C.guarding_ifs(
+                        C.stmt_of(ext[0]), lp) and not [
+                    x for x in own_nodes_of(lp)
+                    if isinstance(x, (ast.Continue, ast.Break))] and \
+                g.dominates(lp, rets[0])
+            why = 'init %s, recursion over %s' % (src(init[0].value),
+                                                  src(lp.iter))
+    R.ob('R9.7', 'get_subtree:self-plus-descendants', ok3,
+         'the result is [self] extended by the subtree of every child, '
+         'recursively, with the same child map', why, func=f)
+    # the map is only built at the start of the recursion
+    guards = [n for n in own_nodes(f.node) if isinstance(n, ast.If)
+              and src(n.test).replace(' ', '') == '%sisNone' % mp]
+    R.ob('R9.7', 'get_subtree:map-built-once', len(guards) == 1,
+         'the child map is computed once, at the top of the recursion',
+         [src(x.test) for x in guards], func=f, nontrivial=False)
+    R.count('R9.7', 1, 1)
+
+
+_run_c09 = run
+
+
+def run(ctx, R):
+    _run_c09(ctx, R)
+    r97(ctx, R)
